@@ -100,6 +100,24 @@ def record(tw, rng, n_membranes, stats, scratch=None):
         mem = build_membrane(rng, allexp, via_csv, scratch)
         ex1 = [exp_desc(e, c1) for e in allexp if e.component is c1]
         ex2 = [exp_desc(e, c2) for e in allexp if e.component is c2]
+        _membrane_trace(tw, rng, stats, j, mem, c1, c2, ex1, ex2, online, mixed_units, via_csv, ea1, ea2)
+        if not via_csv and rng.random() < 0.25:
+            # the SAME membrane object after the caller added an experiment (appended in place, or the list re-assigned): what it
+            # answers now follows the experiments it holds now
+            extra, _ = make_experiments(rng, c1, 1, False, "none" if all(not e["hasEa"] for e in ex1) else "all", mixed_units)
+            if rng.random() < 0.5:
+                mem.ideal_experiments.experiments.append(extra[0])
+            else:
+                mem.ideal_experiments.experiments = list(mem.ideal_experiments.experiments) + [extra[0]]
+            held = mem.ideal_experiments.experiments
+            ex1b = [exp_desc(e, c1) for e in held if e.component is c1]
+            ts = sorted(e["T"] for e in ex1b)
+            if all(b - a > 1e-3 for a, b in zip(ts, ts[1:])):          # distinct temperatures, as the quantifier asks
+                _membrane_trace(tw, rng, stats, j, mem, c1, c2, ex1b, ex2, False, mixed_units, False, 0.0, ea2)
+
+
+def _membrane_trace(tw, rng, stats, j, mem, c1, c2, ex1, ex2, online, mixed_units, via_csv, ea1, ea2):
+    if True:
         tr = tw.new()
         tr.append({"ev": "Mem", "online": online, "mixed_units": mixed_units, "via_csv": via_csv, "ea1": F(ea1), "ea2": F(ea2), "M1": F(c1.molecular_weight),
                    "M2": F(c2.molecular_weight), "exps1": ex1, "exps2": ex2})
